@@ -35,8 +35,9 @@ pub fn deviations(b: &[u8]) -> Vec<Dev> {
     let per = s / 4;
     // FAT cells beyond the file's sector count padded with zero (last FAT sector)
     if let Some(&fs) = l.fat_sectors.last() {
-        let first = l.nsec - (l.fat_sectors.len() - 1) * per;
-        if first < per {
+        // (a file may have more FAT sectors than it needs: then the last one lies wholly beyond the sector count)
+        let first = l.nsec.saturating_sub((l.fat_sectors.len() - 1) * per);
+        if first < per && l.nsec >= (l.fat_sectors.len() - 1) * per {
             push("zeroPaddedFat", fs, &|img| {
                 for i in first..per {
                     wr32(img, (fs + 1) * s + 4 * i, 0);
@@ -51,6 +52,12 @@ pub fn deviations(b: &[u8]) -> Vec<Dev> {
         }
         let cell_sector = l.fat_sectors[fs / per];
         push("unmarkedFatSector", k, &|img| wr32(img, (cell_sector + 1) * s + 4 * (fs % per), 0xffff_fffe));
+        // "not marked" is whatever else the cell may hold: the free marker, zero (a writer that never filled
+        // the cell in: as a sector number it is shared by every such cell, and sector 0 may well be linked to
+        // by a chain), a number beyond the file, the reserved value below DIFSECT
+        for (j, v) in [0xffff_ffffu32, 0, 1, l.nsec as u32 + 7, 0xffff_fffb].iter().enumerate() {
+            push("unmarkedFatSector", 1000 * (j + 1) + k, &|img| wr32(img, (cell_sector + 1) * s + 4 * (fs % per), *v));
+        }
     }
     // header: DIFAT chain "ended" by the free marker, wrong sector counts
     if rd32(b, 72) == 0 {
@@ -78,6 +85,9 @@ pub fn deviations(b: &[u8]) -> Vec<Dev> {
         for (k, &d) in difat_secs.iter().enumerate() {
             if let Some(off) = fat_cell(d) {
                 push("unmarkedDifatSector", k, &|img| wr32(img, off, 0xffff_fffe));
+                for (j, v) in [0xffff_ffffu32, 0, 1, l.nsec as u32 + 7].iter().enumerate() {
+                    push("unmarkedDifatSector", 1000 * (j + 1) + k, &|img| wr32(img, off, *v));
+                }
             }
         }
         if let Some(&last) = difat_secs.last() {
